@@ -161,7 +161,120 @@ func (t *TermBuilder) fieldTerm(x ssa.Value, field string) string {
 			return tb.Term(arg)
 		}
 	}
+	if v, tb, ok := t.localFieldRef(x, field, 0); ok {
+		return tb.Term(v)
+	}
 	return t.Term(x) + "." + field
+}
+
+// FieldTerm is the term of field `field` of the record value x.
+func (t *TermBuilder) FieldTerm(x ssa.Value, field string) string { return t.fieldTerm(x, field) }
+
+// localFieldRef: the value assigned to a field of a record built in place — a local filled field by field (or a
+// composite literal) whose field is assigned exactly once and which is never assigned as a whole — or returned by a
+// single-return constructor helper that builds it that way; nested records are followed field by field.
+func (t *TermBuilder) localFieldRef(x ssa.Value, field string, depth int) (ssa.Value, *TermBuilder, bool) {
+	if depth > 4 {
+		return nil, nil, false
+	}
+	// a field of a field: resolve the enclosing field first
+	if fa, ok := x.(*ssa.FieldAddr); ok {
+		if v, tb, ok := t.localFieldRef(fa.X, fieldName(fa.X.Type(), fa.Field), depth+1); ok {
+			return tb.localFieldRef(v, field, depth+1)
+		}
+		return nil, nil, false
+	}
+	if f, ok := x.(*ssa.Field); ok {
+		if v, tb, ok := t.localFieldRef(f.X, fieldName(f.X.Type(), f.Field), depth+1); ok {
+			return tb.localFieldRef(v, field, depth+1)
+		}
+		return nil, nil, false
+	}
+	if ld, ok := x.(*ssa.UnOp); ok && ld.Op == token.MUL {
+		if fa, ok := ld.X.(*ssa.FieldAddr); ok {
+			if v, tb, ok := t.localFieldRef(fa.X, fieldName(fa.X.Type(), fa.Field), depth+1); ok {
+				return tb.localFieldRef(v, field, depth+1)
+			}
+			return nil, nil, false
+		}
+	}
+	rec, tb := t.resolveRec(x, 0)
+	var call *ssa.Call
+	idx := 0
+	switch y := rec.(type) {
+	case *ssa.Alloc:
+		if y.Referrers() == nil {
+			return nil, nil, false
+		}
+		var stores []*ssa.Store
+		for _, r := range *y.Referrers() {
+			switch z := r.(type) {
+			case *ssa.Store:
+				if z.Addr == y {
+					return nil, nil, false // assigned as a whole somewhere
+				}
+			case *ssa.FieldAddr:
+				if fieldName(z.X.Type(), z.Field) != field || z.Referrers() == nil {
+					continue
+				}
+				for _, rr := range *z.Referrers() {
+					if st, ok := rr.(*ssa.Store); ok && st.Addr == z {
+						stores = append(stores, st)
+					}
+				}
+			}
+		}
+		if len(stores) == 1 {
+			return stores[0].Val, tb, true
+		}
+		return nil, nil, false
+	case *ssa.Call:
+		call = y
+	case *ssa.Extract:
+		c, ok := y.Tuple.(*ssa.Call)
+		if !ok {
+			return nil, nil, false
+		}
+		call, idx = c, y.Index
+	default:
+		return nil, nil, false
+	}
+	cs := tb.P.Callees(call)
+	if len(cs) != 1 || cs[0].Blocks == nil {
+		return nil, nil, false
+	}
+	// the constructor's commit return (returns next to a non-nil error do not deliver the record)
+	failing := map[*ssa.Return]bool{}
+	for _, ri := range tb.P.Returns(cs[0]) {
+		if ri.Class == RetFail {
+			failing[ri.Ret] = true
+		}
+	}
+	var ret *ssa.Return
+	n := 0
+	for _, b := range cs[0].Blocks {
+		if r, ok := b.Instrs[len(b.Instrs)-1].(*ssa.Return); ok && !failing[r] {
+			ret, n = r, n+1
+		}
+	}
+	if n != 1 || idx >= len(ret.Results) {
+		return nil, nil, false
+	}
+	sub := NewTermBuilder(tb.P)
+	sub.depth = tb.depth
+	sub.Bounds, sub.Loaded = tb.Bounds, tb.Loaded
+	c := call.Common()
+	var actuals []ssa.Value
+	if c.IsInvoke() {
+		actuals = append(actuals, c.Value)
+	}
+	actuals = append(actuals, c.Args...)
+	for i, prm := range cs[0].Params {
+		if i < len(actuals) {
+			sub.Names[prm] = tb.Term(actuals[i])
+		}
+	}
+	return sub.localFieldRef(ret.Results[idx], field, depth+1)
 }
 
 func NewTermBuilder(p *Program) *TermBuilder {
@@ -255,6 +368,11 @@ func (t *TermBuilder) Term(v ssa.Value) string {
 			}
 		}
 	case *ssa.Convert:
+		// string <-> []byte is the identity on the bytes; string <-> []rune is not (bytes that are not valid UTF-8 are
+		// replaced)
+		if isRuneSlice(x.Type()) || isRuneSlice(x.X.Type()) {
+			return "runes(" + t.Term(x.X) + ")"
+		}
 		return t.Term(x.X)
 	case *ssa.ChangeType:
 		return t.Term(x.X)
@@ -335,10 +453,17 @@ func (t *TermBuilder) Term(v ssa.Value) string {
 				return t.Term(only.Val)
 			}
 		}
+		// a byte array literal whose elements are all constants (append(key, '/')): the literal string
+		if lit, ok := constByteArray(x); ok {
+			return fmt.Sprintf("%q", lit)
+		}
 		return "alloc"
 	case *ssa.Phi:
 		if ts, ok := t.trimSuffixIdiom(x); ok {
 			return ts
+		}
+		if ms, ok := t.mapAppendIdiom(x); ok {
+			return ms
 		}
 		if t.Bounds && !InCycle(x.Block()) {
 			// a join of alternatives (not loop-carried): keep the alternatives
@@ -411,6 +536,10 @@ func (t *TermBuilder) trimSuffixIdiom(ph *ssa.Phi) (string, bool) {
 
 // elemTerm: an element selected by a loop variable is "some element" (elem(X)); a computed position is kept.
 func (t *TermBuilder) elemTerm(x, idx ssa.Value) string {
+	// an element of a slice built by appending f(e) for every element e of another list, in order: f(elem(list))
+	if xt := t.Term(x); strings.HasPrefix(xt, "map{") && strings.HasSuffix(xt, "}") {
+		return xt[4 : len(xt)-1]
+	}
 	if !t.Bounds {
 		return "elem(" + t.Term(x) + ")"
 	}
@@ -609,4 +738,141 @@ func isConstInt(v ssa.Value, n int64) bool {
 	}
 	i, exact := constant.Int64Val(c.Value)
 	return exact && i == n
+}
+
+func isRuneSlice(t types.Type) bool {
+	sl, ok := t.Underlying().(*types.Slice)
+	if !ok {
+		return false
+	}
+	b, ok := sl.Elem().Underlying().(*types.Basic)
+	return ok && b.Kind() == types.Int32
+}
+
+// constByteArray: al is a [N]byte array each element of which is stored exactly once, with a constant.
+func constByteArray(al *ssa.Alloc) (string, bool) {
+	arr, ok := al.Type().Underlying().(*types.Pointer).Elem().Underlying().(*types.Array)
+	if !ok || arr.Len() > 64 {
+		return "", false
+	}
+	if b, isB := arr.Elem().Underlying().(*types.Basic); !isB || (b.Kind() != types.Uint8 && b.Kind() != types.Byte) {
+		return "", false
+	}
+	out := make([]byte, arr.Len())
+	set := make([]bool, arr.Len())
+	if al.Referrers() == nil {
+		return "", false
+	}
+	for _, r := range *al.Referrers() {
+		switch x := r.(type) {
+		case *ssa.IndexAddr:
+			idx, isC := x.Index.(*ssa.Const)
+			if !isC || idx.Value == nil || x.Referrers() == nil {
+				return "", false
+			}
+			i, exact := constant.Int64Val(idx.Value)
+			if !exact || i < 0 || i >= arr.Len() {
+				return "", false
+			}
+			for _, rr := range *x.Referrers() {
+				st, isSt := rr.(*ssa.Store)
+				if !isSt {
+					continue
+				}
+				c, isC := st.Val.(*ssa.Const)
+				if !isC || c.Value == nil || set[i] {
+					return "", false
+				}
+				v, exact := constant.Int64Val(c.Value)
+				if !exact || v < 0 || v > 255 {
+					return "", false
+				}
+				out[i], set[i] = byte(v), true
+			}
+		case *ssa.Slice, *ssa.DebugRef:
+		default:
+			return "", false
+		}
+	}
+	for _, ok := range set {
+		if !ok {
+			return "", false
+		}
+	}
+	return string(out), true
+}
+
+// mapAppendIdiom: a loop-carried slice that starts empty and is extended by exactly one append per iteration of a
+// loop ranging over a list, with a value computed from the current element: out = append(out, f(elem)). Its term is
+// "map{<term of f(elem(list))>}"; elemTerm turns an element of it back into that term.
+func (t *TermBuilder) mapAppendIdiom(ph *ssa.Phi) (string, bool) {
+	if !InCycle(ph.Block()) || len(ph.Edges) != 2 {
+		return "", false
+	}
+	if _, isSlice := ph.Type().Underlying().(*types.Slice); !isSlice {
+		return "", false
+	}
+	var init, update ssa.Value
+	for i, e := range ph.Edges {
+		if SameLoop(ph.Block().Preds[i], ph.Block()) {
+			update = e
+		} else {
+			init = e
+		}
+	}
+	if init == nil || update == nil {
+		return "", false
+	}
+	// starts empty: nil, or make([]T, 0, n)
+	switch iv := init.(type) {
+	case *ssa.Const:
+		if iv.Value != nil {
+			return "", false
+		}
+	case *ssa.MakeSlice:
+		if c, ok := iv.Len.(*ssa.Const); !ok || c.Value == nil || c.Value.ExactString() != "0" {
+			return "", false
+		}
+	default:
+		return "", false
+	}
+	app, ok := update.(*ssa.Call)
+	if !ok {
+		return "", false
+	}
+	b, isB := app.Call.Value.(*ssa.Builtin)
+	if !isB || b.Name() != "append" || len(app.Call.Args) != 2 || app.Call.Args[0] != ssa.Value(ph) {
+		return "", false
+	}
+	// one appended value: the variadic array holds a single element
+	sl, ok := app.Call.Args[1].(*ssa.Slice)
+	if !ok {
+		return "", false
+	}
+	arr, ok := sl.X.(*ssa.Alloc)
+	if !ok || arr.Referrers() == nil {
+		return "", false
+	}
+	at, ok := arr.Type().Underlying().(*types.Pointer).Elem().Underlying().(*types.Array)
+	if !ok || at.Len() != 1 {
+		return "", false
+	}
+	var val ssa.Value
+	for _, r := range *arr.Referrers() {
+		if ia, ok := r.(*ssa.IndexAddr); ok && ia.Referrers() != nil {
+			for _, rr := range *ia.Referrers() {
+				if st, ok := rr.(*ssa.Store); ok && st.Addr == ia {
+					val = st.Val
+				}
+			}
+		}
+	}
+	if val == nil {
+		return "", false
+	}
+	vt := t.Term(val)
+	if !strings.Contains(vt, "elem(") || strings.Contains(vt, "φ") || strings.Contains(vt, "⊤") {
+		return "", false
+	}
+	return "map{" + vt + "}", true
 }
